@@ -878,13 +878,6 @@ impl Message {
             }
         }
     }
-    pub fn coarse(&self) -> String {
-        if self.stmts.len() == 1 {
-            self.stmts[0].coarse.to_string()
-        } else {
-            format!("multi:{}", self.stmts.iter().map(|s| s.coarse).collect::<Vec<_>>().join(","))
-        }
-    }
 }
 
 /// A message of 1–4 statements.
